@@ -185,3 +185,26 @@ Proof.
       + apply (B 0 HQueued). discriminate. }
   destruct (G 0%nat) as (b & E & F). exists b. split; [exact E|exact F].
 Qed.
+
+(* ---- the inline -> queue switch at kMaxInlineDepth ---- *)
+(* a schedule() call made at inline depth d for which the load test says "inline": *)
+Lemma C16_gate_proof : forall z w p d k k' r,
+  w (0%nat :: p) = true ->
+  exists rest,
+    exec_below z w p d (Node (k :: k' :: r)) =
+    (if d <? kMaxInlineDepth then RUN (0%nat :: p) HInline (d + 1) true :: exec_below z w (0%nat :: p) (d + 1) k
+     else if z then RUN (0%nat :: p) HPoolNow d true :: exec_below z w (0%nat :: p) d k
+     else RUN (0%nat :: p) HQueued 0 false :: exec_below z w (0%nat :: p) 0 k) ++ rest.
+Proof.
+  intros z w p d k k' r Hw. simpl. rewrite Hw. simpl. eexists. reflexivity.
+Qed.
+
+(* permanently overloaded set (every load test says "inline"), pool with threads, left comb of 40 levels:
+   levels 1..32 run inline at depths 1..32, level 33 is queued (depth 0) -- not dropped, not inlined deeper *)
+Lemma C16_cap_switch_proof :
+  let runs := exec false (fun _ => true) (comb_l 40) in
+  let spine := filter (fun r => forallb (Nat.eqb 0) (r_path r)) runs in
+  map (fun r => (how_code (r_how r), r_depth r)) (firstn 35 spine) =
+  (-1, 0) :: map (fun i => (0, Z.of_nat i)) (seq 1 32) ++ [(2, 0); (0, 1)]
+  /\ length runs = size (comb_l 40).
+Proof. vm_compute. split; reflexivity. Qed.
